@@ -25,7 +25,7 @@ META = {
 }
 
 
-def _sd(names, alpha, tol, max_evl, seed, method="AM1", distort=0.05, converger=None, pad_to=None, coords=None, analytical=None):
+def _sd(names, alpha, tol, max_evl, seed, method="AM1", distort=0.05, converger=None, pad_to=None, coords=None, analytical=None, shift=None):
     import torch
 
     import seqm.MolecularDynamics as MD
@@ -35,6 +35,9 @@ def _sd(names, alpha, tol, max_evl, seed, method="AM1", distort=0.05, converger=
     s, x, ch, mu = esh.batch(names, pad_to=pad_to, pad_coord=0.0, coords=coords)
     rng = np.random.default_rng(seed)
     x = x + (s > 0)[..., None] * rng.normal(size=x.shape) * distort
+    if shift is not None:
+        # the real atoms far from the origin (a fragment cut out of a large structure): nothing in the optimiser may depend on where the molecule sits
+        x = x + (s > 0)[..., None] * np.asarray(shift, dtype=float)
     sp = dict(method=method, scf_eps=1e-9, scf_converger=converger or [1], sp2=[False])
     if analytical:
         sp["analytical_gradient"] = list(analytical)
@@ -58,7 +61,7 @@ def _sd(names, alpha, tol, max_evl, seed, method="AM1", distort=0.05, converger=
 
 def probe_sd(inp: Dict[str, Any]) -> Dict[str, Any]:
     r = _sd(inp["names"], inp["alpha"], inp["tol"], inp["max_evl"], inp.get("seed", 0), method=inp.get("method", "AM1"), distort=inp.get("distort", 0.05),
-            converger=inp.get("converger"), pad_to=inp.get("pad_to"), analytical=inp.get("analytical"))
+            converger=inp.get("converger"), pad_to=inp.get("pad_to"), analytical=inp.get("analytical"), shift=inp.get("shift"))
     rec = r["rec"]
     bad: List[str] = []
     kinds = set()
@@ -161,6 +164,11 @@ def gen_cases(ctx: Ctx):
     for i, (names, an) in enumerate([(["hcn"], [True]), (["n2", "h2o"], [True, "numerical"]), (["ch2o"], [True]), (["co", "nh3"], [True])][: (4 if ctx.thorough else 2)]):
         cases.append(("sd_run", {"names": names, "alpha": float(rng.choice([1e-3, 5e-3])), "tol": 0.05, "max_evl": int(rng.choice([6, 10])), "seed": int(rng.integers(0, 10**6)), "method": ["AM1", "PM3", "MNDO"][(i + ctx.seed) % 3],
                                  "converger": [[1], [0, 0.2]][i % 2], "distort": 0.05, "analytical": an, "pad_to": (max(len(esh.GEOMS[v][0]) for v in names) if len(names) > 1 else None)}))
+    # molecules far from the origin x small step factors (tiny moves next to large coordinate values)
+    cases.append(("sd_run", {"names": [str(rng.choice(["h2o", "nh3", "ch4"]))], "alpha": float(rng.choice([2e-5, 5e-5])), "tol": 0.05, "max_evl": 8, "seed": int(rng.integers(0, 10**6)), "method": str(rng.choice(["AM1", "PM3"])),
+                             "shift": [float(v) for v in rng.choice([-1.0, 1.0], size=3) * rng.uniform(40.0, 80.0, size=3)]}))
+    cases.append(("sd_run", {"names": ["h2o", "ch4"], "alpha": 5e-3, "tol": 0.05, "max_evl": 25, "seed": int(rng.integers(0, 10**6)), "method": "AM1", "pad_to": 5, "distort": 0.03,
+                             "shift": [float(v) for v in rng.choice([-1.0, 1.0], size=3) * rng.uniform(40.0, 80.0, size=3)]}))
     # cap hit exactly at convergence (forced edge) and immediate convergence
     cases.append(("sd_run", {"names": ["h2o"], "alpha": 5e-3, "tol": 50.0, "max_evl": 1, "seed": 3}))
     cases.append(("sd_run", {"names": ["h2o"], "alpha": 5e-3, "tol": 50.0, "max_evl": 5, "seed": 3}))
